@@ -309,7 +309,7 @@ def _r4(ctx):
                                 if flows_to_result(a_.targets[0].id, tuple(seen_) + (tname,)):
                                     return True
                     return False
-                own = isinstance(st, ast.Assign) and isinstance(st.targets[0], ast.Name) and (
+                own = isinstance(st, ast.Assign) and isinstance(st.targets[0], ast.Name) and st.targets[0].id != res and (
                     st.value is c or (isinstance(st.value, ast.BoolOp) and isinstance(st.value.op, ast.Or) and any(v_ is c for v_ in st.value.values)))
                 flows = (isinstance(st, ast.Assign) and U(st.targets[0]) == res and res in [U(x) for x in ast.walk(st.value) if isinstance(x, ast.Name)]) \
                     or (own and flows_to_result(st.targets[0].id))
@@ -477,6 +477,15 @@ def _r6(ctx):
     helpers_ok = bool(use) and any("_get_regular_source_operands" in U(x) and "['source']" in U(x) for x in use[0].body) and any(
         "_get_regular_destination_operands" in U(x) and "['destination']" in U(x) for x in use[0].body)
     explicit = bool(use) and any(U(x) == "op_dict['src_dst'] = []" for x in use[0].body)
+    if use and not explicit:
+        # ... or the branch starts from a fresh dict of empty roles
+        for x in use[0].body:
+            if isinstance(x, ast.Assign) and U(x.targets[0]) == "op_dict" and isinstance(x.value, (ast.Dict, ast.DictComp)):
+                val_ = x.value.value if isinstance(x.value, ast.DictComp) else None
+                fresh_vals = (val_ is None and all(isinstance(v_, ast.List) for v_ in x.value.values)) or isinstance(val_, ast.List) or (
+                    isinstance(val_, ast.Call) and pm.call_name(val_) == "list")
+                if fresh_vals and C.empty_roles_value(ctx, a, x.value) is True:
+                    explicit = True
     # ... or op_dict starts as a fresh empty-roles dict (literal, or a deep copy of a constant) and src_dst is not written before
     inits = [x for x in C.assigns_to(a.node, "op_dict") if isinstance(x, ast.Assign) and not C.in_subtree(x, use[0])] if use else []
     fresh_empty = False
@@ -490,6 +499,11 @@ def _r6(ctx):
                     v = ctx.repo.classes[c].class_attrs[v.attr]
         fresh_empty = isinstance(v, ast.Dict) and any(isinstance(k, ast.Constant) and k.value == "src_dst" and isinstance(x, ast.List)
                                                     and not x.elts for k, x in zip(v.keys, v.values))
+        if not fresh_empty and isinstance(inits[0].value, (ast.DictComp, ast.Dict)):
+            # a dict built here (fresh lists per value: `[]` / `list(..)`) that folds to the three empty roles
+            val_ = inits[0].value.value if isinstance(inits[0].value, ast.DictComp) else None
+            fresh_vals = val_ is None or isinstance(val_, ast.List) or (isinstance(val_, ast.Call) and pm.call_name(val_) == "list")
+            fresh_empty = bool(fresh_vals) and C.empty_roles_value(ctx, a, inits[0].value) is True
     ok = helpers_ok and (explicit or fresh_empty)
     ctx.judge(ok, helpers_ok is False or explicit or fresh_empty or not inits or isinstance(inits[0].value, ast.Dict), "R6", "default roles are applied when no ISA entry matched", a.where(),
               "assign_default branch does not assign source/destination/src_dst from the default helpers", a.qname,
